@@ -226,7 +226,7 @@ Qed.
    U in front of P: 10 + 10 + 1 = 21 > 5; U behind P: 1 + 1 + 1 = 3 <= 5.
    Only the distance limit is installed (no quantities, windows, limits). *)
 Definition hd_opts : options :=
-  mkOptions false false false false false false false false false false false 0 1 0 1 false 0 0 0 0 false.
+  mkOptions false false false false false false false false false false false 0 1 0 1 false 0 0 0 0 false [].
 Definition hd_stop : istop := mkIStop [] 0 [] None 10 [] None 0 0.
 Definition hd_veh : ivehicle :=
   mkIVehicle None [] 0 None None None (Some 5) None [] 0 true true 0 0 1 1.
